@@ -168,6 +168,8 @@ func (m *Module) startCtrlFn(name string, fn func() error) chan error {
 
 	// Start control function in goroutine.
 	go func() {
+		var err error
+
 		// Recover from panic and reset control function signal.
 		defer func() {
 			// recover from panic
@@ -175,17 +177,20 @@ func (m *Module) startCtrlFn(name string, fn func() error) chan error {
 			if panicVal != nil {
 				me := m.NewPanicError(name, "module-control", panicVal)
 				me.Report()
-				ctrlFnError <- fmt.Errorf("panic: %s", panicVal)
+				err = fmt.Errorf("panic: %s", panicVal)
 			}
 
 			// Signal finish.
+			// Reset the flag before handing out the result: whoever waits for the
+			// result may go on to run the next control function right away, and
+			// resetting the flag after that would mark it as finished instead.
 			m.ctrlFuncRunning.UnSet()
+			ctrlFnError <- err
 			m.checkIfStopComplete()
 		}()
 
 		// Run control function and report error.
-		err := fn()
-		ctrlFnError <- err
+		err = fn()
 	}()
 
 	return ctrlFnError
